@@ -174,3 +174,30 @@ Proof.
   destruct raw as [req tc pol n]. simpl.
   destruct pol, req, tc; simpl; intros H; inversion H; subst; simpl; repeat split; congruence.
 Qed.
+
+(* ------------------------------------------------------------------ what CheckAuth is asked *)
+(* SUB asks for (params[1], params[2]); the three publishes for (params[1], ""):
+   this is Gate.demand *)
+Theorem checkauth_args_are_demand :
+  checkauth_args =
+    [("SUB", "string(params[1])", "string(params[2])"); ("PUB", "string(params[1])", """""");
+     ("MPUB", "string(params[1])", """"""); ("DPUB", "string(params[1])", """""")].
+Proof. vm_compute. reflexivity. Qed.
+
+(* ------------------------------------------------------------------ internal/auth shapes *)
+Fixpoint bytes_of_string (s : string) : list N :=
+  match s with
+  | EmptyString => []
+  | String a r => Ascii.N_of_ascii a :: bytes_of_string r
+  end.
+
+(* IsExpired is Expires.Before(now) (Gate.is_expired: expires < now); IsAllowed asks for
+   "subscribe" when the channel is not empty and "publish" otherwise; QueryAuthd accepts exactly
+   these two permissions and refuses a TTL <= 0; the literals are the model's *)
+Theorem auth_shapes :
+  isexpired_expr = "a.Expires.Before(time.Now())" /\
+  isallowed_branch = ("channel != """"", "subscribe", "publish") /\
+  queryauthd_known_perms = ["subscribe"; "publish"] /\
+  queryauthd_ttl_refused = "authState.TTL <= 0" /\
+  bytes_of_string "subscribe" = s_subscribe /\ bytes_of_string "publish" = s_publish.
+Proof. vm_compute. repeat split; reflexivity. Qed.
